@@ -10,7 +10,8 @@
    well formed and kept as they are by storage). *)
 From Coq Require Import List ZArith NArith Bool.
 From TF Require Import Base Query Index DB Spec proofs.IndexDefs proofs.IndexP proofs.RepP proofs.DBReadP proofs.DBRemoveP
-     proofs.DBStepP proofs.DBRunP proofs.DBSpecP proofs.GetterP proofs.RefineP.
+     proofs.DBStepP proofs.DBRunP proofs.DBSpecP proofs.GetterP proofs.RefineP QueryObj SearchSem proofs.SearchGenP.
+From TF Require gen.SearchGen.
 Import ListNotations.
 
 Theorem C06_reachable : forall E C norm, (forall p, wf_point p -> wf_point (norm p)) ->
@@ -29,6 +30,11 @@ Proof. exact refines_from_empty. Qed.
 Theorem C06_valid_is_rebuilt_search : forall E i pts q, Rep i pts -> wf_points pts -> wf_query E q -> exact_for_index q = true ->
   exists a b, isearch E i q = Some a /\ isearch E (ix_build pts) q = Some b /\ NoDup a /\ NoDup b /\ forall k, In k a <-> In k b.
 Proof. exact valid_is_rebuilt_search. Qed.
+(* ... also for the search REGENERATED from tinyflux/index.py on every run (gen/SearchGen.v, proofs/SearchGenP.v) *)
+Theorem C06_source_search_valid_is_rebuilt : forall E i pts q, Rep i pts -> wf_points pts -> wf_query E q -> exact_for_index q = true ->
+  exists a b, option_map ir_items (SearchGen.search_helper E (q_size q) i q) = Some a /\
+              option_map ir_items (SearchGen.search_helper E (q_size q) (ix_build pts) q) = Some b /\ NoDup a /\ NoDup b /\ forall k, In k a <-> In k b.
+Proof. exact gen_search_valid_is_rebuilt. Qed.
 (* ... and the same keys, values, timestamps and length *)
 Theorem C06_valid_is_rebuilt_getters : forall i pts, Rep i pts -> wf_points pts ->
   ix_get_measurements i = ix_get_measurements (ix_build pts) /\
@@ -57,6 +63,7 @@ Print Assumptions C06_reachable.
 Print Assumptions C06_step.
 Print Assumptions C06_refines_list_spec.
 Print Assumptions C06_valid_is_rebuilt_search.
+Print Assumptions C06_source_search_valid_is_rebuilt.
 Print Assumptions C06_valid_is_rebuilt_getters.
 Print Assumptions C06_build.
 Print Assumptions C06_insert.
